@@ -15,6 +15,9 @@ package shmipc
 
 import (
 	"fmt"
+	"go/ast"
+	"go/parser"
+	"go/token"
 	"os"
 	"sort"
 	"testing"
@@ -60,6 +63,10 @@ type c03Case struct {
 	Map      string     `json:"map,omitempty"`
 	MErr     string     `json:"merr,omitempty"`
 	MClasses []c03Class `json:"mclasses,omitempty"`
+	// allocation state at the moment the peer maps: slots the creator holds per class, and the (size, head, tail)
+	// header words after those allocations
+	Held  []int64    `json:"held,omitempty"`
+	Alloc [][3]int64 `json:"alloc,omitempty"`
 	// queues
 	QCap     int64      `json:"qcap"`
 	QDataLen int64      `json:"qdatalen"`
@@ -550,8 +557,91 @@ func maxI64(a, b int64) int64 {
 const c03Canary = 0x5C
 const c03Slack = 64
 
+// The creator allocates k slots of every class through the real bufferList.pop before the peer maps: the
+// peer's view of the layout must not depend on the state of the free lists (size / head / tail change, the
+// geometry does not).  k: 0, 1, a random number, or all but the one slot pop never hands out.
+func c03Allocate(r *vrand, a *bufferManager) (held [][]*bufferSlice, ks []int64, st [][3]int64) {
+	for _, l := range a.lists {
+		free := int64(*l.cap) - 1
+		var k int64
+		switch x := r.intn(100); {
+		case x < 20:
+			k = 0
+		case x < 40:
+			k = 1
+		case x < 60:
+			k = free
+		default:
+			k = c03LogUniform(r, 0, free)
+		}
+		if k > free {
+			k = free
+		}
+		if k > 20000 {
+			k = 20000
+		}
+		var hs []*bufferSlice
+		for i := int64(0); i < k; i++ {
+			sl, err := l.pop()
+			if err != nil {
+				break
+			}
+			hs = append(hs, sl)
+		}
+		held = append(held, hs)
+		ks = append(ks, int64(len(hs)))
+		st = append(st, [3]int64{int64(uint32(*l.size)), int64(*l.head), int64(*l.tail)})
+	}
+	return
+}
+
+// The peer uses what it mapped: the class must reach to its last slot (same slots as the creator's), a pop /
+// push pair works at the region end, and the slots the creator holds can be given back through the peer's
+// lists; afterwards every class is full again and its chain visits every slot.
+func c03PeerUse(a, b *bufferManager, held [][]*bufferSlice, add func(string)) {
+	for j, y := range b.lists {
+		if j >= len(a.lists) {
+			break
+		}
+		x := a.lists[j]
+		cpb, capN := int64(*x.capPerBuffer), int64(*x.cap)
+		last := (capN - 1) * (cpb + bufferHeaderSize)
+		if p, _ := c03Try(func() {
+			h := y.bufferRegion[last : last+bufferHeaderSize+cpb]
+			_ = h[len(h)-1]
+		}); p {
+			add("peer: the last slot of a class lies outside the peer's class region")
+			continue
+		}
+		if p, msg := c03Try(func() {
+			if *y.size >= 2 {
+				sl, err := y.pop()
+				if err != nil {
+					add("peer: pop fails on a class with free slots")
+				} else {
+					y.push(sl)
+				}
+			}
+			if j < len(held) {
+				for _, sl := range held[j] {
+					y.push(sl)
+				}
+			}
+		}); p {
+			add("panic: the peer's pop/push on a mapped class panicked: " + msg)
+			continue
+		}
+		if int64(*y.size) != capN || *x.size != *y.size {
+			add("peer: free count is not back to cap after everything was recycled through the peer")
+		}
+		if p, msg := c03Try(func() { c03WalkChain(y, add) }); p {
+			add("panic: walking the peer's chain panicked: " + msg)
+		}
+	}
+}
+
 // run one buffer-manager case on `mem` (capacity == length); `buf` is mem plus the canary tail
-func c03RunBM(c *c03Case, mem []byte, canary []byte) {
+func c03RunBM(c *c03Case, mem []byte, canary []byte, r *vrand) {
 	add := func(s string) { c.Oracle = append(c.Oracle, s) }
 	feat := func(s string) { c.Feat = append(c.Feat, s) }
 	n := len(c.Pairs)
@@ -627,14 +717,21 @@ func c03RunBM(c *c03Case, mem []byte, canary []byte) {
 	if p, msg := c03Try(func() { c03OracleLayout(a, c.Pairs, c.MemLen, oadd) }); p {
 		oadd("panic: walking the created layout panicked: " + msg)
 	}
+	// the creator allocates before the peer maps (only inside the guards: outside them regions may overlap)
+	var held [][]*bufferSlice
+	if c.Guard && r != nil && len(orc) == 0 {
+		if p, msg := c03Try(func() { held, c.Held, c.Alloc = c03Allocate(r, a) }); p {
+			oadd("panic: allocating from a freshly created class panicked: " + msg)
+		}
+	}
 	// the mapping side: a second bufferManager over the same bytes
 	var merr error
 	if p, msg := c03Try(func() { b, merr = mappingBufferManager("verif-c03", mem, 0) }); p {
 		c.Map, c.MErr = "Panic", msg
-		oadd("peer: mappingBufferManager panicked on a freshly created layout")
+		oadd("peer: mappingBufferManager panicked on a layout its peer created")
 	} else if merr != nil {
 		c.Map, c.MErr = "Err", merr.Error()
-		oadd("peer: mappingBufferManager rejects a freshly created layout")
+		oadd("peer: mappingBufferManager rejects a layout its peer created")
 	} else {
 		c.Map = "Ok"
 		for _, l := range b.lists {
@@ -642,6 +739,15 @@ func c03RunBM(c *c03Case, mem []byte, canary []byte) {
 		}
 		if p, msg := c03Try(func() { c03OraclePeer(a, b, true, oadd) }); p {
 			oadd("panic: comparing the two views panicked: " + msg)
+		}
+		if c.Guard && len(orc) == 0 {
+			c03PeerUse(a, b, held, oadd)
+		}
+		for _, k := range c.Held {
+			if k > 0 {
+				feat("peer maps while slots are allocated")
+				break
+			}
 		}
 	}
 	if c.Guard {
@@ -920,7 +1026,7 @@ func minI64(a, b int64) int64 {
 }
 
 // real back-ends for the buffer region: two independent mmaps of the same file / memfd
-func c03RunBMBackend(c *c03Case, memfd bool) {
+func c03RunBMBackend(c *c03Case, memfd bool, r *vrand) {
 	add := func(s string) { c.Oracle = append(c.Oracle, s) }
 	var fd int
 	var err error
@@ -976,14 +1082,21 @@ func c03RunBMBackend(c *c03Case, memfd bool) {
 	if p, msg := c03Try(func() { c03OracleLayout(a, c.Pairs, c.MemLen, add) }); p {
 		add("panic: walking the created layout panicked: " + msg)
 	}
+	// the creator allocates before the peer maps its own mapping of the file
+	var held [][]*bufferSlice
+	if len(c.Oracle) == 0 {
+		if p, msg := c03Try(func() { held, c.Held, c.Alloc = c03Allocate(r, a) }); p {
+			add("panic: allocating from a freshly created class panicked: " + msg)
+		}
+	}
 	if p, msg := c03Try(func() { b, err = mappingBufferManager("verif-c03", m2, 0) }); p {
 		c.Map = "Panic"
-		add("peer: mappingBufferManager panicked on a freshly created layout: " + msg)
+		add("peer: mappingBufferManager panicked on a layout its peer created: " + msg)
 		return
 	}
 	if err != nil {
 		c.Map, c.MErr = "Err", err.Error()
-		add("peer: mappingBufferManager rejects a freshly created layout")
+		add("peer: mappingBufferManager rejects a layout its peer created")
 		return
 	}
 	c.Map = "Ok"
@@ -1011,10 +1124,122 @@ func c03RunBMBackend(c *c03Case, memfd bool) {
 	}); p {
 		add("panic: write-through probe panicked: " + msg)
 	}
+	// the peer works on its own mapping: the held slices are re-read there by offset before it recycles them
+	var heldB [][]*bufferSlice
+	for j, hs := range held {
+		var hb []*bufferSlice
+		for _, sl := range hs {
+			if j < len(b.lists) {
+				y := b.lists[j]
+				o := sl.offsetInShm - y.bufferRegionOffsetInShm
+				if p, _ := c03Try(func() {
+					hb = append(hb, newBufferSlice(y.bufferRegion[o:o+bufferHeaderSize], y.bufferRegion[o+bufferHeaderSize:o+bufferHeaderSize+*y.capPerBuffer], sl.offsetInShm, true))
+				}); p {
+					add("peer: a slot the creator handed out lies outside the peer's class region")
+				}
+			}
+		}
+		heldB = append(heldB, hb)
+	}
+	if len(c.Oracle) == 0 {
+		c03PeerUse(a, b, heldB, add)
+	}
+	for _, k := range c.Held {
+		if k > 0 {
+			c.Feat = append(c.Feat, "peer maps while slots are allocated")
+			break
+		}
+	}
 	c.Feat = append(c.Feat, "real back-end")
 }
 
 // ---------------------------------------------------------------------------------------------
+
+// ---------------------------------------------------------------------------------------------
+// source tie (an AST pattern over the CURRENT buffer_manager.go, complementing the generated offsets):
+// the mapping side must derive the extent of a class from the header words `cap` and `capPerBuffer`
+// — never from `size`, the current free count — both where it cuts the class region
+// (mappingFreeBufferList: needSize) and where it steps to the next list header (mappingBufferManager).
+// Accepted shapes: countBufferListMemSize(<expr over .cap>, <expr over .capPerBuffer>) directly, or a
+// niladic method of *bufferList whose body is `return` of such a call.  Anything else is reported.
+// ---------------------------------------------------------------------------------------------
+
+func c03MentionsField(e ast.Expr, field string) bool {
+	found := false
+	ast.Inspect(e, func(n ast.Node) bool {
+		if se, ok := n.(*ast.SelectorExpr); ok && se.Sel.Name == field {
+			found = true
+		}
+		return true
+	})
+	return found
+}
+
+func c03SourceTie() (ties []string) {
+	fset := token.NewFileSet()
+	f, err := parser.ParseFile(fset, "buffer_manager.go", nil, 0)
+	if err != nil {
+		return []string{"source tie: cannot parse buffer_manager.go: " + err.Error()}
+	}
+	funcs := map[string]*ast.FuncDecl{}
+	for _, d := range f.Decls {
+		if fd, ok := d.(*ast.FuncDecl); ok {
+			funcs[fd.Name.Name] = fd
+		}
+	}
+	var resolve func(e ast.Expr, depth int) *ast.CallExpr
+	resolve = func(e ast.Expr, depth int) *ast.CallExpr {
+		call, ok := e.(*ast.CallExpr)
+		if !ok || depth > 3 {
+			return nil
+		}
+		if id, ok := call.Fun.(*ast.Ident); ok && id.Name == "countBufferListMemSize" && len(call.Args) == 2 {
+			return call
+		}
+		if se, ok := call.Fun.(*ast.SelectorExpr); ok && len(call.Args) == 0 {
+			if fd := funcs[se.Sel.Name]; fd != nil && fd.Recv != nil && fd.Body != nil && len(fd.Body.List) == 1 {
+				if rs, ok := fd.Body.List[0].(*ast.ReturnStmt); ok && len(rs.Results) == 1 {
+					return resolve(rs.Results[0], depth+1)
+				}
+			}
+		}
+		return nil
+	}
+	check := func(fn, lhs, what string) {
+		fd := funcs[fn]
+		if fd == nil || fd.Body == nil {
+			ties = append(ties, "source tie: function "+fn+" not found")
+			return
+		}
+		var rhs ast.Expr
+		ast.Inspect(fd.Body, func(n ast.Node) bool {
+			if as, ok := n.(*ast.AssignStmt); ok && len(as.Lhs) == 1 && len(as.Rhs) == 1 {
+				if id, ok := as.Lhs[0].(*ast.Ident); ok && id.Name == lhs && rhs == nil {
+					rhs = as.Rhs[0]
+				}
+			}
+			return true
+		})
+		if rhs == nil {
+			ties = append(ties, "source tie: "+fn+": no assignment to "+lhs+" ("+what+") found")
+			return
+		}
+		call := resolve(rhs, 0)
+		if call == nil {
+			ties = append(ties, "source tie: "+fn+": "+what+" is not computed by countBufferListMemSize(cap, capPerBuffer) in a recognised shape")
+			return
+		}
+		if !c03MentionsField(call.Args[0], "cap") || c03MentionsField(call.Args[0], "size") {
+			ties = append(ties, "source tie: "+fn+": "+what+" does not take the slot count from the cap word of the list header")
+		}
+		if !c03MentionsField(call.Args[1], "capPerBuffer") {
+			ties = append(ties, "source tie: "+fn+": "+what+" does not take the slot capacity from the capPerBuffer word")
+		}
+	}
+	check("mappingFreeBufferList", "needSize", "the extent of a mapped class")
+	check("mappingBufferManager", "size", "the step to the next list header")
+	return
+}
 
 func TestVerif_C03(t *testing.T) {
 	out := vopenOut(t)
@@ -1040,6 +1265,9 @@ func TestVerif_C03(t *testing.T) {
 		id++
 	}
 
+	// (0) source tie
+	emit(&c03Case{ID: id, Kind: "src", Gen: "source tie", Tie: c03SourceTie()})
+
 	// (1) buffer managers over heap bytes
 	buf := make([]byte, (64<<20)+c03Slack)
 	for k := 0; k < n; k++ {
@@ -1055,7 +1283,7 @@ func TestVerif_C03(t *testing.T) {
 		for i := memLen; i < memLen+c03Slack; i++ {
 			region[i] = c03Canary
 		}
-		c03RunBM(c, region[:memLen:memLen], region[memLen:])
+		c03RunBM(c, region[:memLen:memLen], region[memLen:], r)
 		emit(c)
 	}
 
@@ -1074,7 +1302,7 @@ func TestVerif_C03(t *testing.T) {
 		if err != nil {
 			c.Skipped = "mmap: " + err.Error()
 		} else {
-			c03RunBM(c, m[:memLen:memLen], nil)
+			c03RunBM(c, m[:memLen:memLen], nil, r)
 			_ = syscall.Munmap(m)
 		}
 		emit(c)
@@ -1159,7 +1387,7 @@ func TestVerif_C03(t *testing.T) {
 				}
 			}
 			c := &c03Case{ID: id, Kind: kind, Gen: "real back-end", Pairs: pairs, MemLen: memLen, Fill: 0}
-			c03RunBMBackend(c, memfd)
+			c03RunBMBackend(c, memfd, r)
 			emit(c)
 		}
 	}
